@@ -66,7 +66,10 @@ type Profile struct {
 	LateReply float64
 	// OddHdr: a reply whose header carries another opcode, RA=0, a flipped RD
 	// or QR=0.
-	OddHdr      float64
+	OddHdr float64
+	// LongLived: share of stream connections that are used for longer than
+	// the listener's idle time-out without ever being idle.
+	LongLived   float64
 	Shapes      []string
 	BigAnswers  float64
 	DelayUs     [2]int64
@@ -126,6 +129,7 @@ func ProfileFor(focus, arm string) Profile {
 	case "C03":
 		p.OddQueries = 0.35
 		p.OddHdr = 0.15
+		p.LongLived = 0.15
 		p.Shapes = []string{"plain", "plain", "mixed", "tight"}
 		p.HugeAnswers = 0.1
 		p.RichRules = true
@@ -174,6 +178,12 @@ func ProfileFor(focus, arm string) Profile {
 		p.NUpstreams = [2]int{2, 4}
 		p.NConns, p.OpsPerConn = [2]int{3, 8}, [2]int{2, 8}
 		p.RepeatToken = 0.1
+		if focus == "C10" {
+			// repeats of a name in another class or type, with a cache that
+			// may answer: the question still has to reach the upstream
+			p.RepeatToken = 0.25
+			p.Cache = "mix"
+		}
 	case "C12":
 		p.EDNSProb, p.EDNSOptions = 0.7, true
 		p.OptInReply = 0.6
@@ -262,6 +272,12 @@ func generate(seed uint64, focus, arm string) *plan.Plan {
 	r := &rng{s: seed*0x9E3779B97F4A7C15 + 0x1234567}
 	switch focus {
 	case "C20":
+		if arm == "cache" {
+			p := generate(seed, "C07", []string{"prefetch", "tiny"}[seed&1])
+			p.Focus, p.Arm = "C20", arm
+			p.Knobs.Quarantine = 64
+			return p
+		}
 		if arm == "xport" {
 			p := genXport(r, seed, []string{"C06", "C14", "C05", "C16"}[r.intn(4)], "faults")
 			p.Focus = "C20"
@@ -283,6 +299,14 @@ func generate(seed uint64, focus, arm string) *plan.Plan {
 	case "C05", "C06", "C14", "C16":
 		return genXport(r, seed, focus, arm)
 	case "C04":
+		if arm == "cache" {
+			// the memory cache under concurrent stores, lookups and evictions
+			// (the workload of C07's prefetch / tiny arms): what a lookup hands
+			// back must be the entry's own bytes
+			p := generate(seed, "C07", []string{"prefetch", "tiny"}[seed&1])
+			p.Focus, p.Arm = "C04", arm
+			return p
+		}
 		if arm == "exhaust" {
 			// the end of a pipelined connection's id space: a wrapped id makes
 			// two queries share a slot, and the (replayed) reply to the first
@@ -558,6 +582,17 @@ func genRouter(r *rng, pr *Profile, focus, arm string) *plan.RouterPlan {
 		}
 		base := uint16(r.u64())
 		t0 := r.i64(10_000, max(10_001, pr.SpanUs))
+		// a connection that is used again and again, never idle for long, and
+		// grows older than the listener's idle time-out with a query pending
+		longGap := int64(0)
+		if pr.LongLived > 0 && (srv.Proto == "tcp" || srv.Proto == "tls" || srv.Proto == "gnet" || srv.Proto == "quic") && r.p(pr.LongLived) {
+			idle := int64(srv.IdleTimeout)
+			if idle == 0 {
+				idle = 10
+			}
+			longGap = r.i64(800_000, 3_500_000)
+			nops = int(min(18, (idle*1_000_000+4_000_000)/longGap+2))
+		}
 		for k := 0; k < nops; k++ {
 			op := plan.ClientOp{Idx: opIdx, Conn: ci, ID: base + uint16(k)*uint16(1+r.intn(3)*0+1), NQ: 1, Class: 1, Bits: refdns.BitRD}
 			opIdx++
@@ -565,6 +600,9 @@ func genRouter(r *rng, pr *Profile, focus, arm string) *plan.RouterPlan {
 				op.AtUs = t0 + int64(k)*int64(r.intn(300))
 			} else {
 				op.AtUs = r.i64(10_000, max(10_001, pr.SpanUs))
+			}
+			if longGap > 0 {
+				op.AtUs = t0 + int64(k)*longGap + r.i64(0, longGap/4)
 			}
 			op.Type = []uint16{1, 28, 5, 15, 16, 33, 2, 12, 6, 255, 65}[r.intn(11)]
 			if pr.Classes && r.p(0.2) {
@@ -602,6 +640,9 @@ func genRouter(r *rng, pr *Profile, focus, arm string) *plan.RouterPlan {
 				}
 				op.Labels = ls
 				rp.Tokens[op.Token] = genToken(r, pr, op.Type)
+				if t := rp.Tokens[op.Token]; longGap > 0 && len(t.Acts) == 1 && t.Acts[0].Kind == "reply" && r.p(0.6) {
+					t.Acts[0].DelayUs = r.i64(500_000, 5_200_000) // pending for a while
+				}
 			}
 			if r.p(pr.OddQueries) {
 				switch r.intn(5) {
@@ -1226,22 +1267,26 @@ func genCacheOps(r *rng, p *plan.Plan, focus, arm string) {
 		span := life * 1_000_000 * int64(r.rng(1, 3))
 		// a real burst: several hits while one refresh is in flight and when
 		// its answer is stored (the spread follows the refresh's duration)
-		burstAt, burstSpread := int64(0), int64(0)
+		burstAt, burstSpread, rd := int64(0), int64(0), int64(0)
 		if (focus == "C19" || focus == "C07" && arm != "ample") && r.p(0.5) {
 			burstAt = t0 + life*1_000_000*int64(76+r.intn(20))/100
-			rd := t.Acts[len(t.Acts)-1].DelayUs
+			rd = t.Acts[len(t.Acts)-1].DelayUs
 			if len(t.Acts) > 1 {
 				rd = t.Acts[1].DelayUs
 			}
-			burstSpread = 2*rd + 3000
+			burstSpread = rd + 2*rp.Net.UpLatUs[1] + 4000
+			nops = max(nops, 8)
 		}
 		for i := 0; i < nops; i++ {
 			var at int64
 			switch {
 			case i == 0:
 				at = t0
+			case burstAt > 0 && i == 1:
+				at = burstAt // the hit that starts the refresh
 			case burstAt > 0 && r.p(0.6):
-				at = burstAt + r.i64(0, burstSpread)
+				// around the instant the refresh's answer is stored
+				at = burstAt + rd/2 + r.i64(0, burstSpread)
 			case focus == "C19" && r.p(0.7):
 				// inside / around the last quarter, in bursts
 				at = t0 + life*1_000_000*int64(70+r.intn(32))/100 + r.i64(0, 3000)
@@ -1254,6 +1299,11 @@ func genCacheOps(r *rng, p *plan.Plan, focus, arm string) {
 				at = t0 + life*1_000_000 + r.i64(-2_500_000, 3_500_000)
 			default:
 				at = t0 + r.i64(1000, span+1000)
+			}
+			if burstAt > 0 && at > t0+life*1_000_000*72/100 && at < burstAt {
+				// nothing else in the last quarter before the burst: its first hit
+				// is the one that starts the refresh
+				at = burstAt + rd/2 + r.i64(0, burstSpread)
 			}
 			if at < 10_000 {
 				at = 10_000
